@@ -323,7 +323,6 @@ CONVERSIONS = {
     "from_3d_numpy_to_2d_array": ("C3dTo2d", 2, "array"),
     "from_2d_array_to_nested": ("C2dToNested", None, "frame"),
 }
-UNWRAP_RECEIVERS = ("sfa", "transformer")
 
 
 class Scope:
@@ -334,6 +333,7 @@ class Scope:
         self.ixs = []
         self.local = set()
         self.appends = {}
+        self.path_ends = []     # append counts of the paths that end in `continue`
         self.stores = []        # (accumulator name, ix)
 
     def access(self, raw, ix):
@@ -396,6 +396,66 @@ def _stores_to_self(fn):
     return None
 
 
+def _bag_member_attrs(index, mod, cls):
+    """self.<attr> names of a class that hold SFA transformers (directly, or in (nested) lists),
+    found by ROLE: the attribute is assigned / appended a call of the class SFA of the anchored
+    sources (or a local bound to such a call) somewhere in the class or its resolvable bases"""
+    def is_sfa_call(e, local):
+        if isinstance(e, ast.Name) and e.id in local:
+            return True
+        if not isinstance(e, ast.Call):
+            return False
+        f = e.func
+        nm = f.id if isinstance(f, ast.Name) else (f.attr if isinstance(f, ast.Attribute) else None)
+        if nm is None:
+            return False
+        r = index.resolve_name(mod, nm) if isinstance(f, ast.Name) else None
+        if r is not None and isinstance(r[1], ast.ClassDef):
+            return r[1].name == "SFA" and r[0].path.endswith("dictionary_based/_sfa.py")
+        return False
+
+    def self_attr(e):
+        while isinstance(e, ast.Subscript):
+            e = e.value
+        if isinstance(e, ast.Attribute) and isinstance(e.value, ast.Name) and e.value.id == "self":
+            return e.attr
+        return None
+
+    out = set()
+    todo, seen = [(mod, cls)], set()
+    while todo:
+        m, c = todo.pop()
+        if id(c) in seen:
+            continue
+        seen.add(id(c))
+        for b in c.bases:
+            if isinstance(b, ast.Name):
+                r = index.resolve_name(m, b.id)
+                if r and isinstance(r[1], ast.ClassDef):
+                    todo.append(r)
+        for fn in c.body:
+            if not isinstance(fn, ast.FunctionDef):
+                continue
+            local = set()
+            for n in ast.walk(fn):
+                if isinstance(n, ast.Assign) and len(n.targets) == 1 \
+                        and isinstance(n.targets[0], ast.Name) and is_sfa_call(n.value, set()):
+                    local.add(n.targets[0].id)
+            for n in ast.walk(fn):
+                if isinstance(n, ast.Assign) and is_sfa_call(n.value, local):
+                    for t in n.targets:
+                        a = self_attr(t)
+                        if a:
+                            out.add(a)
+                if isinstance(n, ast.Call) and isinstance(n.func, ast.Attribute) \
+                        and n.func.attr == "append" and len(n.args) == 1 \
+                        and is_sfa_call(n.args[0], local):
+                    a = self_attr(n.func.value)
+                    if a:
+                        out.add(a)
+    return out
+
+
 class Interp:
     def __init__(self, index, mod, cls, qual):
         self.index = index
@@ -410,6 +470,7 @@ class Interp:
         self.assumptions = []
         self.retstack = []
         self.loops = []          # "row" / "plain", innermost last
+        self.bag_attrs = _bag_member_attrs(index, mod, cls) if cls is not None else set()
 
     # ---------- helpers ----------
     def sym(self, node, what=""):
@@ -756,8 +817,9 @@ class Interp:
             return self.index_panel(v.base, ix, scope, e, elems, env)
         if v.k == "PANEL":
             if v.member_out and len(elems) == 1 and _const_int(elems[0]) == 0:
-                recv = (v.label or "").lower()
-                if any(u in recv for u in UNWRAP_RECEIVERS):
+                recv = (v.label or "")
+                if recv.startswith("self.") and \
+                        recv[5:].split(".")[0].split("[")[0] in self.bag_attrs:
                     self.assumptions.append("%s(X)[0] is the row-aligned list of bags" % v.label)
                     return panel(v.raw, 0, None, "list")
             ix, scope = self.classify(elems, env, e)
@@ -830,9 +892,23 @@ class Interp:
         if isinstance(it, ast.Call) and isinstance(it.func, ast.Name) and it.func.id == "zip" \
                 and not it.keywords and it.args and not any(isinstance(a, ast.Starred)
                                                             for a in it.args):
-            vals = [self.ev(a, env) for a in it.args]
-            if any(v.k == "PANEL" for v in vals):
-                if not all(v.k == "PANEL" and v.iax == 0 for v in vals):
+            # an argument that just counts the rows (range(n), itertools.count()) is the row index
+            def counts_rows(a):
+                if not isinstance(a, ast.Call) or a.keywords:
+                    return False
+                fn = _fname(a.func)
+                if fn in ("count", "itertools.count"):
+                    return not a.args or (len(a.args) == 1 and _const_int(a.args[0]) == 0)
+                if fn in ("range", "prange"):
+                    av = [self.ev(x, env) for x in a.args]
+                    return (len(av) == 1 and av[0].k == "N") or \
+                        (len(av) == 2 and _const_int(a.args[0]) == 0 and av[1].k == "N")
+                return False
+            idx_pos = [j for j, a in enumerate(it.args) if counts_rows(a)]
+            vals = [None if j in idx_pos else self.ev(a, env) for j, a in enumerate(it.args)]
+            real = [v for v in vals if v is not None]
+            if any(v.k == "PANEL" for v in real):
+                if not all(v.k == "PANEL" and v.iax == 0 for v in real):
                     raise Reject("L%d: rows zipped with a batch-independent sequence "
                                  "(position-dependent)" % node.lineno)
 
@@ -840,9 +916,17 @@ class Interp:
                     if not (isinstance(target, ast.Tuple) and len(target.elts) == len(vals)):
                         raise Reject("L%d: zip target" % node.lineno)
                     for t, v in zip(target.elts, vals):
-                        scope.access(v.raw, ["IIdx"])
-                        self.bind(t, row(scope), env2, node)
+                        if v is None:
+                            if not isinstance(t, ast.Name):
+                                raise Reject("L%d: zip target" % node.lineno)
+                            env2[t.id] = Val("IDX", scope=scope)
+                        else:
+                            scope.access(v.raw, ["IIdx"])
+                            self.bind(t, row(scope), env2, node)
                 return "rows", setup
+            if idx_pos:
+                raise Reject("L%d: a row counter zipped with batch-independent sequences"
+                             % node.lineno)
             return "plain", Val("TUP", elts=[self.elem_of(v, node) for v in vals])
         v = self.ev(it, env)
         if v.k == "PANEL":
@@ -880,6 +964,30 @@ class Interp:
             if sc is not None:
                 sc.local.add(target.id)
             return
+        if isinstance(target, (ast.Tuple, ast.List)) and \
+                sum(isinstance(t, ast.Starred) for t in target.elts) == 1:
+            j = [isinstance(t, ast.Starred) for t in target.elts].index(True)
+            before, star, after = target.elts[:j], target.elts[j].value, target.elts[j + 1:]
+            if val.k in ("P", "ROW", "B", "SELF", "EXT"):
+                for t in before + [star] + after:
+                    self.bind(t, P if val.k in ("SELF", "EXT") else val, env, node)
+                return
+            if val.k == "SHAPE" and val.dims is not None \
+                    and len(val.dims) >= len(before) + len(after):
+                dims = val.dims
+                for t, d in zip(before, dims):
+                    self.bind(t, N if d == "DN" else P, env, node)
+                mid = dims[len(before):len(dims) - len(after)]
+                self.bind(star, P if "DN" not in mid else Val("SHAPE", dims=mid), env, node)
+                for t, d in zip(after, dims[len(dims) - len(after):] if after else []):
+                    self.bind(t, N if d == "DN" else P, env, node)
+                return
+            if val.k == "SHAPE" and val.dims is None and val.iax == 0 and len(before) >= 1:
+                self.bind(before[0], N, env, node)
+                for t in before[1:] + [star] + after:
+                    self.bind(t, P, env, node)
+                return
+            raise Reject("L%d: star-unpacking a %s value" % (node.lineno, val.k))
         if isinstance(target, (ast.Tuple, ast.List)):
             n = len(target.elts)
             if val.k == "TUP":
@@ -1547,8 +1655,14 @@ class Interp:
         return False
 
     def st_Continue(self, st, env):
-        if not self.loops or self.loops[-1] == "row":
-            raise Reject("L%d: continue in a row loop (a row is skipped)" % st.lineno)
+        if not self.loops:
+            raise Reject("L%d: continue outside a loop" % st.lineno)
+        if self.loops[-1] == "row":
+            # early end of this row's iteration: the path ends here; what it appended so far is
+            # checked at the end of the loop (every path must append exactly once)
+            sc = self.cur()
+            sc.path_ends.append(dict(sc.appends))
+            return True
         return False
 
     def st_Return(self, st, env):
@@ -1953,6 +2067,14 @@ class Interp:
         if st.orelse:
             raise Reject("L%d: for/else on a row loop" % st.lineno)
         g = self.sym(st, "rows")
+        names = set(scope.appends)
+        for pe in scope.path_ends:
+            names |= set(pe)
+        for pe in scope.path_ends + [scope.appends]:
+            for name in names:
+                if pe.get(name, (0, 0)) != (1, 1):
+                    raise Reject("L%d: the row loop does not append to %s exactly once per row "
+                                 "on every path" % (st.lineno, name))
         for name, (mn, mx) in scope.appends.items():
             if (mn, mx) != (1, 1):
                 raise Reject("L%d: the row loop does not append to %s exactly once per row"
